@@ -676,7 +676,8 @@ impl CanonicalRequest {
         &&& (ha && !qa && self.header_carrier_fails(self.first_auth_header()) ==> e is IncompleteSignature)
         &&& (!ha && qa && self.first_query_alg() != ALGO() ==> e is MissingAuthenticationToken)
         &&& (!ha && qa && self.first_query_alg() == ALGO() && self.query_carrier_missing() ==> e is IncompleteSignature)
-        &&& ((exists|p: AuthParams| self.carrier_selected(p)) && !self.acceptable_params(always, ifreq, prefixes) ==> e is SignatureDoesNotMatch)
+        &&& (ha && !qa && !self.header_carrier_fails(self.first_auth_header()) && !self.acceptable_params(always, ifreq, prefixes) ==> e is SignatureDoesNotMatch)
+        &&& (!ha && qa && self.first_query_alg() == ALGO() && !self.query_carrier_missing() && !self.acceptable_params(always, ifreq, prefixes) ==> e is SignatureDoesNotMatch)
         &&& (self.acceptable_params(always, ifreq, prefixes) ==> e is IncompleteSignature)
     }
 //@ fn canonical.rs impl CanonicalRequest :: get_authenticator
